@@ -7,7 +7,7 @@
 
 static const char* DECLS =
     "int i; int j; int[0,5] bi; int[0,5] bj; int[1,7] bk; bool b; bool b2; double d; double d2; clock x; clock y;\n"
-    "typedef scalar[3] S; S s; S s2; typedef scalar[3] S3; S3 t;\n"
+    "typedef scalar[3] S; S s; S s2; typedef scalar[3] S3; S3 t; meta S ms; meta int mi; meta bool mb; \n"
     "typedef struct { int a; int b; } Rec; Rec r; Rec r2; typedef struct { int a; bool q; } Qrec; Qrec q;\n"
     "int arr[3]; int arr2[3]; int arr4[4]; chan c; chan c2; broadcast chan bc; const int ci = 1; const double cd = 0.5; const Rec cr = {1, 2};\n"
     "void f_int(int& p) {}\n void f_bi(int[0,5]& p) {}\n void f_bk(int[1,7]& p) {}\n void f_b(bool& p) {}\n void f_d(double& p) {}\n"
@@ -17,13 +17,13 @@ static const char* DECLS =
 
 // operand pool: per operand class of the property, identifiers, constants and small expressions of that type
 static const char* OPERANDS[11][4] = {
-    /* 0 int          */ {"i", "1", "i + 1", "ci"},
+    /* 0 int          */ {"i", "mi", "i + 1", "ci"},
     /* 1 bounded int  */ {"bi", "bk", nullptr, nullptr},
-    /* 2 bool         */ {"b", "true", "i < j", nullptr},
+    /* 2 bool         */ {"b", "true", "i < j", "mb"},
     /* 3 double       */ {"d", "2.5", "d * 2.0", "cd"},
     /* 4 clock        */ {"x", "x + 1", nullptr, nullptr},
     /* 5 clock diff   */ {"x - y", nullptr, nullptr, nullptr},
-    /* 6 scalar       */ {"s", "t", nullptr, nullptr},
+    /* 6 scalar       */ {"s", "t", "ms", nullptr},
     /* 7 struct       */ {"r", "q", "cr", nullptr},
     /* 8 array        */ {"arr", "arr4", nullptr, nullptr},
     /* 9 channel      */ {"c", "bc", nullptr, nullptr},
